@@ -114,3 +114,7 @@ def evaluate(cfg):
             o.cmp("symmetric hessian vs library's own H" + tag, Hs, (H + np.swapaxes(H, 1, 2)) / 2, 1e-12,
                   (hmag + np.swapaxes(hmag, 1, 2)) / 2, key="hessian-symmetric-lib")
     return o
+
+
+def cost(cfg):
+    return sum((l + 1) ** 2 * M for l, K, M in BASES[cfg["basis"]])
